@@ -726,7 +726,8 @@ class Interp:
             nm = names[-1]
             e = "%s(%s)" % (nm, ", ".join(self.deref(a).expr() for a in args))
             if not any(n in pure for n in names):
-                self.events.append(("call", nm, [self.deref(a) for a in args], body.loc(bb, "term")))
+                self.events.append(("call", nm, [self.deref(a) for a in args], body.loc(bb, "term"),
+                                    func.get("gargs", [])))
                 e = self.fresh(e)
             ret_ty = strip_generics(body.locals[dest.local]["ty"]) if not dest.proj else None
             res = Sym(e, ty=ret_ty)
